@@ -479,3 +479,44 @@ package orda
 //@   ensures[pointer-without-a-slash-is-an-error] !contains(path, "/") ==> result2 != nil
 //@   ensures[key-is-the-decoded-last-token] result2 == nil ==> result1 == unescapeRef(strings.splitLast(path, "/"))
 //@   modifies nothing
+
+// ---------------------------------------------------------------------------------------
+// Snapshot import of a List (C10): the decoded node table is linked in order and every element is indexed under its
+// IDENTITY (the hash of its order time O, which never changes) — not under its value time T, which moves with every
+// update or delete — so that remote operations addressed to an element still reach it on the restored replica.
+// The decoded table itself comes from encoding/json (assumed to hand back what MarshalJSON wrote: distinct, valid
+// identifiers; listed as a loop assumption).
+// ---------------------------------------------------------------------------------------
+//@ func (*listSnapshot).UnmarshalJSON
+//@   mode math nooverflow size counts the live nodes of an in-memory list
+//@   props C10
+//@   dispatch timedType : *timedNode
+//@   dispatch orderedType : *orderedNode
+//@   requires its != nil
+//@   loop 0 assume[decoded-table-is-a-valid-snapshot] forall n in forUnmarshal.Nodes :: n != nil && n.O != nil && allocated(n) && allocated(n.O)
+//@   loop 0 assume[identifiers-are-distinct] rangeindex + 1 < len(forUnmarshal.Nodes) ==> !(keyOf(forUnmarshal.Nodes[rangeindex + 1].O) in its.Map)
+//@   loop 0 invariant[shape] its.Map != nil && its.head != nil && its.head.(*orderedNode) && prev != nil && prev.(*orderedNode) && on(prev).next == nil && rangeindex + 1 <= len(forUnmarshal.Nodes) && its.size == forUnmarshal.Size
+//@   loop 0 invariant[head-indexed] keyOf(on(its.head).O) in its.Map && its.Map[keyOf(on(its.head).O)] == its.head
+//@   loop 0 invariant[last] (rangeindex < 0 ? prev == its.head : keyOf(forUnmarshal.Nodes[rangeindex].O) in its.Map && prev == its.Map[keyOf(forUnmarshal.Nodes[rangeindex].O)])
+//@   loop 0 invariant[indexed] forall j int :: 0 <= j && j <= rangeindex ==> keyOf(forUnmarshal.Nodes[j].O) in its.Map && its.Map[keyOf(forUnmarshal.Nodes[j].O)] != nil && its.Map[keyOf(forUnmarshal.Nodes[j].O)].(*orderedNode) && allocated(on(its.Map[keyOf(forUnmarshal.Nodes[j].O)])) && allocated(tnOf(on(its.Map[keyOf(forUnmarshal.Nodes[j].O)])))
+//@   loop 0 invariant[indexed-by-identity] forall j int :: 0 <= j && j <= rangeindex ==> on(its.Map[keyOf(forUnmarshal.Nodes[j].O)]).O == forUnmarshal.Nodes[j].O
+//@   loop 0 invariant[values-restored] forall j int :: 0 <= j && j <= rangeindex ==> on(its.Map[keyOf(forUnmarshal.Nodes[j].O)]).timedType != nil && on(its.Map[keyOf(forUnmarshal.Nodes[j].O)]).timedType.(*timedNode) && tnOf(on(its.Map[keyOf(forUnmarshal.Nodes[j].O)])).V == forUnmarshal.Nodes[j].V && tnOf(on(its.Map[keyOf(forUnmarshal.Nodes[j].O)])).T == forUnmarshal.Nodes[j].T
+//@   loop 0 invariant[linked-nodes-have-successors] forall j int :: 0 <= j && j < rangeindex ==> on(its.Map[keyOf(forUnmarshal.Nodes[j].O)]).next != nil
+//@   loop 0 invariant[order-restored] forall j int :: 0 <= j && j < rangeindex ==> on(its.Map[keyOf(forUnmarshal.Nodes[j].O)]).next == its.Map[keyOf(forUnmarshal.Nodes[j + 1].O)]
+//@   ensures-local[indexed-by-identity] result == nil ==> forall j int :: 0 <= j && j < len(forUnmarshal.Nodes) ==> keyOf(forUnmarshal.Nodes[j].O) in its.Map && on(its.Map[keyOf(forUnmarshal.Nodes[j].O)]).O == forUnmarshal.Nodes[j].O
+//@   ensures-local[values-restored]     result == nil ==> forall j int :: 0 <= j && j < len(forUnmarshal.Nodes) ==> tnOf(on(its.Map[keyOf(forUnmarshal.Nodes[j].O)])).V == forUnmarshal.Nodes[j].V && tnOf(on(its.Map[keyOf(forUnmarshal.Nodes[j].O)])).T == forUnmarshal.Nodes[j].T
+//@   ensures-local[order-restored]      result == nil ==> forall j int :: 0 <= j && j + 1 < len(forUnmarshal.Nodes) ==> on(its.Map[keyOf(forUnmarshal.Nodes[j].O)]).next == its.Map[keyOf(forUnmarshal.Nodes[j + 1].O)]
+//@   ensures-local[size-restored]       result == nil ==> its.size == forUnmarshal.Size
+//@   modifies *
+
+// Snapshot import of a Map (C10): exactly the decoded entries (tombstones included), under the same keys, and the
+// decoded live count.
+//@ func (*mapSnapshot).UnmarshalJSON
+//@   mode math
+//@   props C10
+//@   requires its != nil
+//@   loop 0 assume[the-decoded-map-is-an-older-object-than-the-new-map] its.Map != temp.Map
+//@   loop 0 invariant[copied-so-far] its.Map != nil && (forall k string :: (k in its.Map) == (k in temp.Map && visited(k))) && (forall k string :: k in its.Map ==> its.Map[k] == temp.Map[k])
+//@   ensures-local[same-entries] result == nil ==> its.Map != nil && (forall k string :: (k in its.Map) == (k in temp.Map)) && (forall k string :: k in its.Map ==> its.Map[k] == temp.Map[k])
+//@   ensures-local[same-size]    result == nil ==> its.Size == temp.Size
+//@   modifies *
